@@ -111,13 +111,13 @@ type MetricQuery struct {
 }
 
 type Request struct {
-	Log     *LogQuery    `json:"log,omitempty"`
-	Metric  *MetricQuery `json:"metric,omitempty"`
-	StartNs int64        `json:"start"`
-	EndNs   int64        `json:"end"`
+	Log     *LogQuery     `json:"log,omitempty"`
+	Metric  *MetricQuery  `json:"metric,omitempty"`
+	StartNs int64         `json:"start"`
+	EndNs   int64         `json:"end"`
 	Step    time.Duration `json:"step"`
-	Limit   int64        `json:"limit"`
-	Forward bool         `json:"forward"`
+	Limit   int64         `json:"limit"`
+	Forward bool          `json:"forward"`
 }
 
 // ---------- rendering ----------
